@@ -184,6 +184,77 @@ func TestConcurrent(t *testing.T) {
 			inst.Close()
 		}
 	}
+	// a store write that is slow and then fails, while the SAME subscriber asks again from another goroutine, then a new
+	// subscriber allocates: whatever the second caller was told it holds must not be given away by the first caller's rollback
+	for _, a := range concurrentAdapters() {
+		sys := NewPoolSystem(a, 3, []string{"alloc", "release"})
+		probe := sys.New().(*poolInst)
+		gated := probe.im.gateSaveFail != nil
+		probe.Close()
+		if !gated {
+			continue
+		}
+		for h, pre := range [][]int{{}, {3}} {
+			inst := sys.New().(*poolInst)
+			for _, s := range pre {
+				inst.Apply(core.Event{"op": "alloc", "sub": s, "arg": -1})
+			}
+			prev := make([]int, 3)
+			for s := 1; s <= 3; s++ {
+				prev[s-1] = inst.im.lookup(a.subID(s))
+			}
+			var clock int64
+			var ops []LinOp
+			rec := func(id int, op string, sub int, r map[string]any, fault bool, inv, ret int) {
+				ops = append(ops, LinOp{ID: id, Op: op, Sub: sub, Arg: -1, Ok: r["ok"].(bool), Unit: r["unit"].(int), Err: r["err"].(string), Fault: fault, Inv: inv, Ret: ret})
+			}
+			parked, open := inst.im.gateSaveFail()
+			type done struct {
+				r   map[string]any
+				ret int
+			}
+			firstDone, secondDone := make(chan done, 1), make(chan done, 1)
+			firstInv := int(atomic.AddInt64(&clock, 1))
+			go func() {
+				r := inst.Apply(core.Event{"op": "alloc", "sub": 1, "arg": -1})
+				firstDone <- done{r, int(atomic.AddInt64(&clock, 1))}
+			}()
+			var fd, sd done
+			select {
+			case <-parked:
+				secondInv := int(atomic.AddInt64(&clock, 1))
+				go func() {
+					r := inst.Apply(core.Event{"op": "alloc", "sub": 1, "arg": -1})
+					secondDone <- done{r, int(atomic.AddInt64(&clock, 1))}
+				}()
+				select {
+				case sd = <-secondDone: // the second caller was answered while the first one's write was pending
+					open()
+					fd = <-firstDone
+				case <-time.After(300 * time.Millisecond): // the second caller waits for the first
+					open()
+					fd = <-firstDone
+					sd = <-secondDone
+				}
+				rec(1, "alloc", 1, fd.r, true, firstInv, fd.ret) // its store write failed: a fault
+				rec(2, "alloc", 1, sd.r, false, secondInv, sd.ret)
+			case fd = <-firstDone:
+				open()
+				rec(1, "alloc", 1, fd.r, false, firstInv, fd.ret)
+			}
+			inv := int(atomic.AddInt64(&clock, 1))
+			r := inst.Apply(core.Event{"op": "alloc", "sub": 2, "arg": -1})
+			rec(3, "alloc", 2, r, false, inv, int(atomic.AddInt64(&clock, 1)))
+			final := make([]int, 3)
+			for s := 1; s <= 3; s++ {
+				final[s-1] = inst.im.lookup(a.subID(s))
+			}
+			cfg := sys.Config()
+			cfg["pre"] = prev
+			hs = append(hs, LinHistory{Name: fmt.Sprintf("%s#failgate%d", a.Name(), h), Cfg: cfg, Ops: ops, Final: final})
+			inst.Close()
+		}
+	}
 	if err := core.WriteJSON(out, "histories.json", map[string]any{"histories": hs}); err != nil {
 		t.Fatal(err)
 	}
